@@ -60,144 +60,6 @@ theorem attrsRun_ok (env : NsEnv) (henv : EnvOK env) (d : Option Str) (attrs : L
       obtain ⟨M2, A2, h2, e2, ok2, a2⟩ := ih M1 (dset A n (some s)) ok1 (hA.dset n s hname (x1 s rfl)) hr
       exact ⟨M2, A2, by simp [attrsRun, hs, he, h2], e1.trans e2, ok2, a2⟩
 
-/-! ### no carriage return in encoded character data -/
-
-def noCR (s : Str) : Prop := '\r' ∉ s
-
-theorem isNameChar_ne_cr (c : Char) (h : isNameChar c = true) : c ≠ '\r' := by
-  intro hc; subst hc; revert h; decide
-
-theorem isNCName_noCR (s : Str) (h : isNCName s = true) : noCR s := by
-  intro hm
-  exact isNameChar_ne_cr _ (isNCName_all s h _ hm) rfl
-
-theorem noCR_append (a b : Str) (ha : noCR a) (hb : noCR b) : noCR (a ++ b) := by
-  intro hm
-  rcases List.mem_append.mp hm with h | h
-  · exact ha h
-  · exact hb h
-
-theorem serializeQName_noCR (env : NsEnv) (henv : EnvOK env) (d : Option Str) (t : Str) (M : NsMap)
-    (hM : MapOK env d M) (ht : qnameTextOK t = true) (s : Str) (M' : NsMap)
-    (h : serializeQName env t M = .ok (s, M')) : noCR s := by
-  unfold qnameTextOK at ht
-  cases hc : clark t with
-  | none => rw [hc] at ht; cases ht
-  | some n =>
-    obtain ⟨uo, l⟩ := n
-    rw [hc] at ht
-    have hs := clark_splitQName t _ hc
-    unfold serializeQName at h
-    rw [hs] at h
-    cases uo with
-    | none =>
-      simp only [] at h
-      cases h
-      exact isNCName_noCR _ (clark_none_ns t _ hc)
-    | some u =>
-      simp only [] at ht h
-      have hl := isNCName_noCR l (clark_some_ns t u l hc).2
-      obtain ⟨_, hok, hget⟩ := loadPrefix_ok env henv d u M hM ht
-      generalize hlp : loadPrefix env u M = r at h hok hget
-      obtain ⟨po, M1⟩ := r
-      cases po with
-      | none => simp only [] at h; cases h; exact hl
-      | some p =>
-        simp only [] at h hok hget
-        by_cases hp : p.isEmpty = true
-        · simp [hp] at h; rw [← h.1]; exact hl
-        · simp [hp] at h
-          rw [← h.1]
-          have hpn := declOK_prefix_ncname p u (hok.decl _ (dget_some_mem _ _ _ hget))
-          refine noCR_append _ _ (isNCName_noCR p hpn) ?_
-          intro hm
-          rcases List.mem_cons.mp hm with h1 | h1
-          · cases h1
-          · exact hl h1
-
-theorem serializeAtom_noCR (env : NsEnv) (henv : EnvOK env) (d : Option Str) (a : Atom) (M : NsMap)
-    (hM : MapOK env d M) (ha : atomOK a = true) (hc : atomNoCR a = true) (s : Str) (M' : NsMap)
-    (h : serializeAtom env a M = .ok (s, M')) : noCR s := by
-  cases a with
-  | str x =>
-    simp [serializeAtom] at h
-    rw [← h.1]
-    simpa [atomNoCR, noCR] using hc
-  | qname t => exact serializeQName_noCR env henv d t M hM ha s M' h
-  | int i => cases ha
-  | bool b => cases ha
-
-theorem noCR_joinStr (ss : List Str) (h : ∀ s ∈ ss, noCR s) : noCR (joinStr [' '] ss) := by
-  induction ss with
-  | nil => intro hm; cases hm
-  | cons x r ih =>
-    cases r with
-    | nil => simpa [joinStr] using h x (by simp)
-    | cons y r' =>
-      simp only [joinStr]
-      refine noCR_append _ _ (noCR_append _ _ (h x (by simp)) ?_) (ih (fun s hs => h s (List.mem_cons_of_mem _ hs)))
-      intro hm; simp at hm
-
-theorem serializeAtoms_noCR (env : NsEnv) (henv : EnvOK env) (d : Option Str) (xs : List Atom) :
-    ∀ (M : NsMap), MapOK env d M → xs.all (fun a => atomOK a && atomNoCR a) = true →
-    ∀ ss M', serializeAtoms env xs M = .ok (ss, M') → ∀ s ∈ ss, noCR s := by
-  induction xs with
-  | nil => intro M _ _ ss M' h; simp [serializeAtoms] at h; rw [h.1]; simp
-  | cons a r ih =>
-    intro M hM hx ss M' h
-    simp only [List.all_cons, Bool.and_eq_true] at hx
-    obtain ⟨s1, M1, h1, _, ok1, _⟩ := serializeAtom_ok env henv d a M hM hx.1.1
-    simp only [serializeAtoms, h1] at h
-    split at h
-    · cases h
-    · rename_i ss2 M2 h2
-      simp only [Except.ok.injEq, Prod.mk.injEq] at h
-      obtain ⟨hss, hM2⟩ := h
-      subst hss
-      intro s hs
-      rcases List.mem_cons.mp hs with rfl | hm
-      · exact serializeAtom_noCR env henv d a M hM hx.1.1 hx.1.2 _ _ h1
-      · exact ih M1 ok1 (by simpa [List.all_eq_true] using hx.2) ss2 M2 h2 s hm
-
-theorem dataValOK_valOK (v : Val) (h : dataValOK v = true) : valOK v = true := by
-  cases v with
-  | none => rfl
-  | atom a => simp only [dataValOK, Bool.and_eq_true] at h; exact h.1
-  | list xs =>
-    simp only [dataValOK, valOK, List.all_eq_true, Bool.and_eq_true] at h ⊢
-    exact fun a ha => (h a ha).1
-
-theorem encodeData_noCR (env : NsEnv) (henv : EnvOK env) (d : Option Str) (v : Val) (M : NsMap)
-    (hM : MapOK env d M) (hv : dataValOK v = true) (s : Str) (M' : NsMap)
-    (h : encodeData env v M = .ok (some s, M')) : noCR s := by
-  cases v with
-  | none => simp [encodeData] at h
-  | atom a =>
-    simp only [dataValOK, Bool.and_eq_true] at hv
-    cases a with
-    | str x =>
-      simp [encodeData] at h
-      rw [← h.1]
-      simpa [atomNoCR, noCR] using hv.2
-    | qname t =>
-      simp only [encodeData, serializeAtom] at h
-      split at h
-      · cases h
-      · rename_i s1 M1 h1
-        cases h
-        exact serializeQName_noCR env henv d t M hM hv.1 _ _ h1
-    | int i => cases hv.1
-    | bool b => cases hv.1
-  | list xs =>
-    cases xs with
-    | nil => simp [encodeData] at h
-    | cons a r =>
-      simp only [encodeData] at h
-      split at h
-      · cases h
-      · rename_i ss M1 h1
-        simp only [Except.ok.injEq, Prod.mk.injEq, Option.some.injEq] at h
-        rw [← h.1]
-        exact noCR_joinStr ss (serializeAtoms_noCR env henv d (a :: r) M hM hv ss M1 h1)
+theorem dataValOK_valOK (v : Val) (h : dataValOK v = true) : valOK v = true := h
 
 end Proofs.Attrs
